@@ -166,12 +166,34 @@ def nums_agree(a, b, tol=1e-9):
     return False
 
 
+REAL_DIGIT_LIMIT = [None]
+
+
+@contextlib.contextmanager
+def real_mode():
+    """run a piece of the real code under the int<->str digit limit the real code left in force (see Real.__init__)"""
+    if REAL_DIGIT_LIMIT[0] is None or not hasattr(sys, "get_int_max_str_digits"):
+        yield
+        return
+    sys.set_int_max_str_digits(REAL_DIGIT_LIMIT[0])
+    try:
+        yield
+    finally:
+        REAL_DIGIT_LIMIT[0] = sys.get_int_max_str_digits()
+        sys.set_int_max_str_digits(0)
+
+
 class Real:
     """The real implementation, in-process, with captured streams and a watchdog."""
 
     def __init__(self):
         self.ka = import_real()
         import ka.interpret, ka.tokens, ka.parse, ka.eval, ka.functions, ka.types, ka.units
+        # CPython's int<->str digit limit is process-wide state that the code under test may set (it lifts it at import): the harness
+        # does its own conversions without a limit, and gives the real code the setting the real code itself left behind
+        if hasattr(sys, "get_int_max_str_digits"):
+            REAL_DIGIT_LIMIT[0] = sys.get_int_max_str_digits()
+            sys.set_int_max_str_digits(0)
         self.interpret = ka.interpret
         self.tokens = ka.tokens
         self.parse = ka.parse
@@ -205,7 +227,7 @@ class Real:
         """tokenise → parse → eval → reduce_result.  Returns ('ok', value) or ('err', code)."""
         t0_ = time.process_time()
         try:
-            with alarm(timeout):
+            with alarm(timeout), real_mode():
                 toks = self.tokens.tokenise(text)
                 tree = self.parse.parse_tokens(toks)
                 v = self.eval.eval_parse_tree(tree, env)
@@ -224,7 +246,7 @@ class Real:
         status, escaped = None, None
         t0_ = time.process_time()
         try:
-            with alarm(timeout):
+            with alarm(timeout), real_mode():
                 status = self.interpret.execute(text, env=env, out=out, errout=err, result_box=box, **kw)
             if status == 0 and not kw:
                 self._note(text, env, t0_, ("execute", out.getvalue()))
